@@ -363,12 +363,26 @@ def publickey_request(session_id, user, service, keykind, algorithm, sigvar):
         kb = key(OTHER_KEY[keykind]).asbytes()
     elif sigvar == "wrong-key":
         signer = key(OTHER_KEY[keykind])
-    elif sigvar not in ("valid", "sigbit"):
+    elif sigvar not in ("valid", "sigbit") + R.SIG_MALFORMED:
         raise ValueError(sigvar)
     sig = signer.sign_ssh_data(session_blob(sid, u, svc, meth, alg, kb), algorithm)
     sig = sig.asbytes() if hasattr(sig, "asbytes") else bytes(sig)
     if sigvar == "sigbit":
         sig = sig[:-1] + bytes([sig[-1] ^ 0x01])
+    elif sigvar in R.SIG_MALFORMED:
+        # signature = string(algorithm name) + string(blob): keep the name, re-encode a damaged blob
+        sm = Message(sig)
+        name, blob = sm.get_string(), sm.get_binary()
+        assert sm.get_remainder() == b"" and blob, "unexpected signature layout"
+        out = Message()
+        out.add_string(name)
+        if sigvar == "malformed-short":
+            out.add_string(blob[:-1])
+        elif sigvar == "malformed-empty":
+            out.add_string(b"")
+        elif sigvar == "malformed-ones":
+            out.add_string(b"\xff" * len(blob))
+        sig = out.asbytes()
     m.add_boolean(True)
     m.add_string(algorithm)
     m.add_string(keyblob)
